@@ -169,6 +169,78 @@ def render() -> str:
     return '\n'.join(lines) + '\n'
 
 
+GUARD_OUT = LEAN_DIR / 'AeicModel' / 'Generated' / 'Guard.lean'
+
+
+def _is_owner_attr(n: ast.AST) -> bool:
+    return isinstance(n, ast.Attribute) and n.attr == 'active_in_thread'
+
+
+def _is_get_ident(n: ast.AST) -> bool:
+    return isinstance(n, ast.Call) and isinstance(n.func, ast.Attribute) and n.func.attr == 'get_ident' and not n.args
+
+
+def _guard_block(stmts) -> str:
+    out = []
+    for st in stmts:
+        if isinstance(st, ast.Expr) and isinstance(st.value, ast.Constant) and isinstance(st.value.value, str):
+            continue  # docstring
+        if isinstance(st, ast.Pass):
+            continue
+        if isinstance(st, ast.With) and len(st.items) == 1 and isinstance(st.items[0].context_expr, ast.Attribute) \
+                and 'lock' in st.items[0].context_expr.attr.lower() and st.items[0].optional_vars is None:
+            out.append(f'.withLock {_guard_block(st.body)}')
+        elif isinstance(st, ast.If) and isinstance(st.test, ast.Compare) and len(st.test.ops) == 1 \
+                and _is_owner_attr(st.test.left) and isinstance(st.test.ops[0], ast.IsNot) \
+                and isinstance(st.test.comparators[0], ast.Constant) and st.test.comparators[0].value is None:
+            out.append(f'.ifOwnerSet {_guard_block(st.body)} {_guard_block(st.orelse)}')
+        elif isinstance(st, ast.If) and isinstance(st.test, ast.Compare) and len(st.test.ops) == 1 \
+                and _is_owner_attr(st.test.left) and isinstance(st.test.ops[0], ast.NotEq) and _is_get_ident(st.test.comparators[0]):
+            out.append(f'.ifOwnerNotMe {_guard_block(st.body)} {_guard_block(st.orelse)}')
+        elif isinstance(st, ast.Raise):
+            out.append('.raise')
+        elif isinstance(st, ast.Assign) and len(st.targets) == 1 and _is_owner_attr(st.targets[0]) and _is_get_ident(st.value):
+            out.append('.setOwnerMe')
+        else:
+            raise TranslationError(f'thread guard: statement form not understood at line {st.lineno}: {ast.dump(st)[:160]}')
+    return '[' + ', '.join(out) + ']'
+
+
+def render_guard() -> str:
+    """The statements of TrajectoryStore.__init__ before `self.mode = mode`, as a program of AeicModel/GuardLang.lean."""
+    path = SRC() / 'trajectories' / 'store.py'
+    tree = ast.parse(path.read_text())
+    init = None
+    for cls in ast.walk(tree):
+        if isinstance(cls, ast.ClassDef) and cls.name == 'TrajectoryStore':
+            for b in cls.body:
+                if isinstance(b, ast.FunctionDef) and b.name == '__init__':
+                    init = b
+    if init is None:
+        raise TranslationError('TrajectoryStore.__init__ not found')
+    region = []
+    for st in init.body:
+        if isinstance(st, ast.Assign) and len(st.targets) == 1 and isinstance(st.targets[0], ast.Attribute) \
+                and st.targets[0].attr == 'mode' and isinstance(st.targets[0].value, ast.Name) and st.targets[0].value.id == 'self':
+            break
+        region.append(st)
+    else:
+        raise TranslationError('`self.mode = mode` (end of the guard region) not found in TrajectoryStore.__init__')
+    prog = _guard_block(region)
+    return ('/- GENERATED by harness/common/translator.py from src/AEIC/trajectories/store.py on every check run. Do not edit. -/\n'
+            'import AeicModel.GuardLang\nnamespace Aeic.Gen\nopen Aeic.GuardLang\n\n'
+            f'def guardProgram : List GStmt := {prog}\n\nend Aeic.Gen\n')
+
+
+def regenerate_guard() -> bool:
+    txt = render_guard()
+    GUARD_OUT.parent.mkdir(parents=True, exist_ok=True)
+    if GUARD_OUT.exists() and GUARD_OUT.read_text() == txt:
+        return False
+    GUARD_OUT.write_text(txt)
+    return True
+
+
 def regenerate() -> bool:
     txt = render()
     OUT.parent.mkdir(parents=True, exist_ok=True)
